@@ -53,6 +53,8 @@ def shard_main(args: argparse.Namespace) -> int:
 
     tempfile.tempdir = None
     t0 = time.time()
+    from . import reach
+    reach_on = os.environ.get("VERIF_REACH", "1") != "0" and reach.start([str(common.REPO_SRC / "pyopenapi_gen") + os.sep])
     try:
         if args.replay:
             case = json.loads(Path(args.replay).read_text())
@@ -60,8 +62,23 @@ def shard_main(args: argparse.Namespace) -> int:
         else:
             mod.run_shard(ctx)
     finally:
+        hits = reach.stop() if reach_on else {}
         ctx.scratch.cleanup()
     out = ctx.rec.to_json()
+    # code reach: generator lines executed in this worker + runtime lines executed inside emitted clients (probe)
+    rr: dict[str, set[int]] = {}
+    for f, lines in hits.items():
+        try:
+            rr.setdefault(str(Path(f).relative_to(common.REPO_SRC)), set()).update(lines)
+        except ValueError:
+            pass
+    try:
+        from . import genrun
+        for f, lines in genrun.REACH.items():
+            rr.setdefault(f, set()).update(lines)
+    except Exception:
+        pass
+    out["reach"] = {f: sorted(v) for f, v in rr.items()}
     out["wall_s"] = time.time() - t0
     Path(args.out).write_text(json.dumps(out, default=str))
     return 0
@@ -106,7 +123,7 @@ def run_shards(prop: str, tier: str, seed: int, nshards: int, timeout_s: float, 
 
 def merge(results: list[dict[str, Any]]) -> dict[str, Any]:
     m: dict[str, Any] = {"evaluations": 0, "distinct": set(), "nontrivial": set(), "counters": {},
-                         "violations": [], "samples": [], "inconclusive": [], "sets": {}, "sigcounts": {}}
+                         "violations": [], "samples": [], "inconclusive": [], "sets": {}, "sigcounts": {}, "reach": {}}
     for r in results:
         m["evaluations"] += r["evaluations"]
         m["distinct"].update(r["distinct"])
@@ -124,6 +141,8 @@ def merge(results: list[dict[str, Any]]) -> dict[str, Any]:
             m["sets"].setdefault(k, set()).update(v)
         for k, v in r.get("sigcounts", {}).items():
             m["sigcounts"][k] = m["sigcounts"].get(k, 0) + v
+        for f, lines in r.get("reach", {}).items():
+            m["reach"].setdefault(f, set()).update(lines)
     return m
 
 
@@ -232,6 +251,16 @@ def main(argv: list[str] | None = None) -> int:
     }
     if getattr(mod, "EXHAUSTIVE", {}).get(tier):
         coverage["exhaustive"] = True
+    if m["reach"] and not args.replay:
+        from . import reach
+        anchors = [a for a in getattr(mod, "REACH_ANCHORS", [])]
+        summ = reach.summarise(m["reach"], common.REPO_SRC)
+        if anchors:
+            summ["anchored_files"] = {a: {"reached": len(m["reach"].get(a, set()) & reach.executable_lines(common.REPO_SRC / a)),
+                                          "executable": len(reach.executable_lines(common.REPO_SRC / a))} for a in anchors}
+        coverage["code_reach"] = summ
+        if os.environ.get("VERIF_KEEP"):
+            (VERIF_ROOT / ".scratch" / f"reach-{prop}.json").write_text(json.dumps({f: sorted(v) for f, v in m["reach"].items()}))
     ev = {
         "property_id": prop, "tier": tier, "seed": seed, "level": getattr(mod, "LEVEL", "exploration"),
         "coverage": coverage, "assumptions": getattr(mod, "ASSUMPTIONS", []),
